@@ -16,16 +16,16 @@ import (
 // Run is one harness run writing ops.jsonl, go.out, stats.json and oracle.jsonl
 // into a directory.
 type Run struct {
-	Dir     string
-	Ops     *bufio.Writer
-	Out     *bufio.Writer
-	opsF    *os.File
-	outF    *os.File
-	Counts  map[string]int
-	Samples []interface{}
+	Dir      string
+	Ops      *bufio.Writer
+	Out      *bufio.Writer
+	opsF     *os.File
+	outF     *os.File
+	Counts   map[string]int
+	Samples  []interface{}
 	Distinct map[string]struct{}
-	Viol    []Violation
-	Extra   map[string]interface{}
+	Viol     []Violation
+	Extra    map[string]interface{}
 }
 
 // Violation is one failing input found by a Go-side oracle on the real code.
@@ -55,7 +55,7 @@ func NewRun(dir string) *Run {
 		Counts: map[string]int{}, Distinct: map[string]struct{}{}, Extra: map[string]interface{}{}}
 }
 
-func (r *Run) Count(k string) { r.Counts[k]++ }
+func (r *Run) Count(k string)      { r.Counts[k]++ }
 func (r *Run) Add(k string, n int) { r.Counts[k] += n }
 
 // Nontrivial registers a distinct non-trivial case by its key.
